@@ -107,12 +107,15 @@ static void mode_recv(vf::Ctx& c)
 		size_t n = pickLen(c.rng, c.idx + m, maxbig);
 		sm.payload = randPayload(c.rng, n, sm.text);
 		int nfr = c.rng.chance(0.5) ? 1 : c.rng.range(2, 4);
-		if ((size_t)nfr > n) nfr = (int)n;
+		// a third of the fragmented messages may contain empty fragments (first, middle or the final FIN one), which RFC 6455 allows
+		bool emptyFrags = nfr > 1 && n > 0 && c.rng.chance(0.35);
+		if (!emptyFrags && (size_t)nfr > n) nfr = (int)n;
 		std::vector<size_t> cutp;
-		for (int i = 1; i < nfr; i++) cutp.push_back(1 + c.rng.below((uint32_t)(n - 1)));
+		for (int i = 1; i < nfr; i++) cutp.push_back(emptyFrags ? (c.rng.chance(0.3) ? (c.rng.chance(0.5) ? 0 : n) : c.rng.below((uint32_t)(n + 1))) : 1 + c.rng.below((uint32_t)(n - 1)));
 		std::sort(cutp.begin(), cutp.end());
-		cutp.erase(std::unique(cutp.begin(), cutp.end()), cutp.end());
+		if (!emptyFrags) cutp.erase(std::unique(cutp.begin(), cutp.end()), cutp.end());
 		cutp.push_back(n);
+		if (emptyFrags) { size_t pa = 0; for (size_t i = 0; i < cutp.size(); i++) { if (cutp[i] == pa) c.count(i + 1 == cutp.size() ? "empty_final_fragments" : i == 0 ? "empty_first_fragments" : "empty_middle_fragments"); pa = cutp[i]; } }
 		size_t a = 0;
 		d += vf::fmt("[%s %d bytes in %d frames", sm.text ? "text" : "binary", (int)n, (int)cutp.size());
 		for (size_t i = 0; i < cutp.size(); i++) {
